@@ -21,6 +21,7 @@ RuleSets ==
       <<Rule("never", "K0"), Rule("always", "K0")>>,
       \* a shadowed rule's (stateful) trigger is still evaluated, once per execution
       <<Rule("every2", "K0"), Rule("scripted", "K0")>>,
+      <<Rule("always", "PG")>>, <<Rule("every2", "PG"), Rule("always", "K0")>>,     \* a float state (values above 1 too)
       <<Rule("always", "U"), Rule("scripted", "U"), Rule("scripted", "K0")>>,
       <<Rule("scripted", "U"), Rule("every2", "K0")>>,
       <<Rule("every2", "IT"), Rule("always", "U"), Rule("scripted", "MISSING")>> }
@@ -35,7 +36,8 @@ LSpec == LInit /\ [][LNext]_lvars
 
 Log == full.log
 LX == full.lx
-FiringIdx == {k \in 1..Len(LX) : \E j \in 1..Len(rules) : LX[k].fired[j] = 1}
+\* (the rules in force at an execution are part of its ghost record: seeded scopes add rules while the run is under way)
+FiringIdx == {k \in 1..Len(LX) : \E j \in 1..Len(LX[k].rules) : LX[k].fired[j] = 1}
 RECURSIVE Nth(_, _)
 Nth(S, n) == LET m == CHOOSE x \in S : \A y \in S : x <= y IN IF n = 1 THEN m ELSE Nth(S \ {m}, n - 1)
 
@@ -44,8 +46,10 @@ Nth(S, n) == LET m == CHOOSE x \in S : \A y \in S : x <= y IN IF n = 1 THEN m EL
 OneStepPerFiringExecution == Len(Log) = Cardinality(FiringIdx)
 
 Names(step) == {step[i].n : i \in 1..Len(step)}
-FiredSrcs(x) == {rules[j].src : j \in {j \in 1..Len(rules) : x.fired[j] = 1}}
-VisAt(sc, src) == IF src = "MISSING" THEN NoVal ELSE Vis(sc, src)
+FiredSrcs(x) == {x.rules[j].src : j \in {j \in 1..Len(x.rules) : x.fired[j] = 1}}
+VisAt(sc, src) == IF src = "MISSING" THEN NoVal
+                  ELSE IF src = "PG" THEN (IF Vis(sc, "K0") = NoVal THEN NoVal ELSE 3 * Vis(sc, "K0"))
+                  ELSE Vis(sc, src)
 
 \* a step holds one entry per fired rule (one per name), each with the value the state had at that
 \* moment (null if the source state is missing), together with the current iteration count, first
@@ -64,8 +68,8 @@ RuleOrderKept ==
     \A k \in 1..Len(Log) :
         LET x == LX[Nth(FiringIdx, k)]
             step == Log[k]
-            first(src) == CHOOSE j \in 1..Len(rules) : rules[j].src = src /\ x.fired[j] = 1
-                              /\ \A j2 \in 1..Len(rules) : (rules[j2].src = src /\ x.fired[j2] = 1) => j <= j2 IN
+            first(src) == CHOOSE j \in 1..Len(x.rules) : x.rules[j].src = src /\ x.fired[j] = 1
+                              /\ \A j2 \in 1..Len(x.rules) : (x.rules[j2].src = src /\ x.fired[j2] = 1) => j <= j2 IN
         \A a, b \in 1..Len(step) :
             (a < b /\ step[a].n \in FiredSrcs(x) /\ step[b].n \in FiredSrcs(x) /\ (step[a].n # "IT" \/ "IT" \in FiredSrcs(x))
                /\ (step[1].n # "IT" \/ "IT" \in FiredSrcs(x) \/ a > 1))
